@@ -618,7 +618,9 @@ def targeted_cases(rng, n):
         f1 = [(b"/c%d.bin" % j, [33000, 33000, 20000][j]) for j in range(3)]
         chm, exp = chmfmt.build([(b"/index.html", b"<html>hi</html>")], f1, rng, chunk_size=4096, wbits=15, reset_frames=1, version=3)
         names = sorted(exp.keys(), key=chmfmt.sort_key)
-        sc = scenario.Scn().file("in0.chm", chm).op("chm_new").op("chm_fast_open", "h0", "in0.chm").op("chm_find", "h0", b"/c2.bin".hex(), "out0").op("chm_find", "h0", b"/c1.bin".hex(), "out1").op("chm_close", "h0")
-        sc.op("chm_open", "h1", "in0.chm").op("chm_extract", "h1", names.index(b"/c2.bin"), "out2").op("chm_extract", "h1", names.index(b"/c2.bin"), "out3").op("chm_close", "h1")
+        # (two short scenarios: the fault sweep injects at most the first 60 calls of each kind)
+        sc = scenario.Scn().file("in0.chm", chm).op("chm_new").op("chm_open", "h1", "in0.chm").op("chm_extract", "h1", names.index(b"/c2.bin"), "out2").op("chm_extract", "h1", names.index(b"/c2.bin"), "out3").op("chm_extract", "h1", names.index(b"/c1.bin"), "out4").op("chm_close", "h1")
+        out.append(Case("gen:chm-reset-faults", "chm", sc, True, exp, all_faults=True))
+        sc = scenario.Scn().file("in0.chm", chm).op("chm_new").op("chm_fast_open", "h0", "in0.chm").op("chm_find", "h0", b"/c2.bin".hex(), "out0").op("chm_find", "h0", b"/c2.bin".hex(), "out1").op("chm_close", "h0")
         out.append(Case("gen:chm-reset-faults", "chm", sc, True, exp, all_faults=True))
     return out
